@@ -474,3 +474,66 @@ def run_sem_case(case):
                     bad.append({'text': text, 'semantics': kind, 'reused_object': a, 'fresh_object': b})
         out['reuse_mismatch'] = bad
     return out
+
+
+def run_error_case(case):
+    """C08: {ebnf, texts, settings?} -> per text and per input implementation / parseinfo setting: outcome; for failures the position,
+    the line/column/source line reported by the exception, and whether the message renders."""
+    sys.setrecursionlimit(case.get('reclimit', 3000))
+    import tatsu
+    from tatsu.exceptions import FailedParse, ParseException
+    from tatsu.input.buffer import Buffer
+    signal.signal(signal.SIGALRM, _alarm)
+    clear_caches()
+    out = {'res': []}
+    signal.alarm(case.get('timeout', 20))
+    try:
+        model = tatsu.compile(case['ebnf'])
+        out['compile'] = {'k': 'ok'}
+    except _Timeout:
+        out['compile'] = {'k': 'exc', 'cls': 'Timeout'}
+        return out
+    except ParseException as e:
+        out['compile'] = {'k': 'err', 'cls': type(e).__name__}
+        return out
+    except Exception as e:  # noqa: BLE001
+        out['compile'] = {'k': 'exc', 'cls': type(e).__name__, 'msg': str(e)[:200]}
+        return out
+    finally:
+        signal.alarm(0)
+    for text in case['texts']:
+        r = {}
+        for how in ('textlines', 'textlines+pi', 'buffer', 'buffer+pi'):
+            kw = dict(case.get('settings') or {})
+            if how.endswith('+pi'):
+                kw['parseinfo'] = True
+            inp = Buffer(text) if how.startswith('buffer') else text
+            signal.alarm(case.get('timeout', 20))
+            try:
+                v = model.parse(inp, **kw)
+                o = {'k': 'ok', 'v': norm(v)}
+            except FailedParse as e:
+                o = {'k': 'fail', 'cls': type(e).__name__}
+                try:
+                    info = e.info
+                    o.update(pos=e.pos, line=info.line, col=info.col, text=info.text, start=info.start)
+                except Exception as e2:  # noqa: BLE001
+                    o['info_error'] = f'{type(e2).__name__}: {e2}'[:120]
+                try:
+                    msg = str(e)
+                    o['rendered'] = isinstance(msg, str) and len(msg) > 0
+                except Exception as e2:  # noqa: BLE001
+                    o['render_error'] = f'{type(e2).__name__}: {e2}'[:120]
+            except ParseException as e:
+                o = {'k': 'err', 'cls': type(e).__name__}
+            except RecursionError:
+                o = {'k': 'exc', 'cls': 'RecursionError'}
+            except _Timeout:
+                o = {'k': 'exc', 'cls': 'Timeout'}
+            except Exception as e:  # noqa: BLE001
+                o = {'k': 'exc', 'cls': type(e).__name__, 'msg': str(e)[:160]}
+            finally:
+                signal.alarm(0)
+            r[how] = o
+        out['res'].append(r)
+    return out
